@@ -54,6 +54,42 @@ class RoleLost(Exception):
             WANTED.append(wanted)
 
 
+def returns_unchanged(body, t):
+    """The result of call `t` is what `body` returns: its destination is the return place, or a local that is moved there (directly or
+    through one more local — the return slot of an inlined delegate) and nowhere else assigned."""
+    if t["dest"]["p"]:
+        return False
+    holders = {t["dest"]["l"]}
+    if 0 in holders:
+        return True
+    for _ in range(3):
+        grown = False
+        for blk in body.blocks:
+            if blk["cleanup"]:
+                continue
+            for st in blk["stmts"]:
+                rv = st["rv"]
+                if not st["place"]["p"] and rv["k"] == "use" and rv["op"]["k"] in ("copy", "move") and not rv["op"]["place"]["p"] \
+                        and rv["op"]["place"]["l"] in holders and st["place"]["l"] not in holders:
+                    holders.add(st["place"]["l"])
+                    grown = True
+        if not grown:
+            break
+    if 0 not in holders:
+        return False
+    # _0 must not receive anything else
+    for blk in body.blocks:
+        if blk["cleanup"]:
+            continue
+        for st in blk["stmts"]:
+            if st["place"]["l"] == 0 and not (st["rv"]["k"] == "use" and st["rv"]["op"]["k"] in ("copy", "move") and st["rv"]["op"]["place"]["l"] in holders):
+                return False
+        tt = blk["term"]
+        if tt["k"] == "call" and tt["dest"]["l"] == 0 and tt is not t:
+            return False
+    return True
+
+
 class Roles:
     def __init__(self, facts):
         self.f = facts
@@ -110,14 +146,18 @@ class Roles:
         """The callee of the x-space-point entry whose result is returned."""
         def go():
             e = self.xspace_entry()
-            v = Vals(e)
-            cands = []
-            for bi, t, cb in self.local_callees(e):
-                if t["dest"]["l"] == 0 and not t["dest"]["p"]:
-                    cands.append((bi, t, cb))
-            if len(cands) != 1:
-                raise RoleLost("sample: callee of generate_sample_from_x_space_point whose result is returned (found %d)" % len(cands))
-            return cands[0][2]
+            cur, seen = e, set()
+            # follow pure delegation (`fn entry(..) { self.inner(..) }`): the sampling routine is the end of the chain of callees
+            # whose result is returned unchanged
+            for _ in range(4):
+                cands = [(bi, t, cb) for bi, t, cb in self.local_callees(cur) if returns_unchanged(cur, t)]
+                if len(cands) != 1 or cands[0][2].key in seen:
+                    break
+                seen.add(cur.key)
+                cur = cands[0][2]
+            if cur is e:
+                raise RoleLost("sample: callee of generate_sample_from_x_space_point whose result is returned (found 0)")
+            return cur
         return self._memoize("sample", go)
 
     def decompose(self):
